@@ -15,17 +15,18 @@
     * `pool_rdm` for the four fitting criteria, the normalisations of `fit_regress`,
       the normal equations `X θ = rhs` (`X = A V⁻¹ Aᵀ`, `rhs = A V⁻¹ y`);
     * `_nn_least_squares` (active-set loop as the property needs it: only coefficients fixed
-      at zero may enter, scale-relative threshold, bounded iterations), `fit_select` (first arg-max),
+      at zero may enter, threshold relative to the scale of `Aᵀy` and — round 5 — of the products
+      `|ATA|·x`, bounded iterations), `fit_select` (first arg-max),
       the assembly of θ in `fit_interpolate`, the final normalisation to unit norm.
   The *property demands* that the pooled target of the whitened criteria is formed with the
   same `sigma_k` as the criterion (`pool_rdm(data, method, sigma_k)`); the model does that.
   Scalar arithmetic whose exact text matters is *called* from the generated leaves
   `Rsa.Gen.C08.*` (regenerated from `fitter.py` / `model.py` on every run): the two weights of
   an interpolation fit and the offset of the second index, the entry of the final
-  normalisation, the NNLS threshold, iteration bound, step length and step update, the
+  normalisation, the NNLS thresholds (before the loop / per iteration), iteration bound, step length and step update, the
   `theta ** 2` reparametrisation and the loss of the optimising fitters, the clamp and the
   `None` default of `ModelInterpolate`, the default-fitter dispatch of the model classes.
-  Parameters / contracts: the linear solves (`np.linalg.solve`, `scipy.sparse.linalg.cg`;
+  Parameters / contracts: the linear solves (`np.linalg.lstsq`, `scipy.sparse.linalg.cg`;
   the driver uses `Compare.solve`), the per-segment results of `minimize_scalar`, BFGS.
   No Mathlib here.
 -/
@@ -411,12 +412,14 @@ def argmaxActive (p : List Bool) (w : List α) : Option (Nat × α) :=
       | some (j, b) => if b < v then some (i, v) else some (j, b)) none
 
 /-- outer loop: while a coefficient fixed at zero has a gradient above `tol`, release the
-    one with the largest gradient; the Boolean says whether all loops ended through their
-    tests (`true`) or an iteration bound was hit (`false`) -/
-def nnlsOuter (tol : α) (G : List (List α)) (c : List α) :
-    Nat → List α → List Bool → List α → List α × List Bool × List α × Bool
-  | 0, x, p, w => (x, p, w, false)
-  | fuel + 1, x, p, w =>
+    one with the largest gradient; at the end of every iteration the threshold is re-set from
+    the new point (`tolNext x`, round 5: it also covers the rounding level of the products
+    `|ATA|·x` the gradient is a difference of).  The Boolean says whether all loops ended
+    through their tests (`true`) or an iteration bound was hit (`false`) -/
+def nnlsOuter (tolNext : List α → α) (G : List (List α)) (c : List α) :
+    Nat → α → List α → List Bool → List α → List α × List Bool × List α × Bool
+  | 0, _, x, p, w => (x, p, w, false)
+  | fuel + 1, tol, x, p, w =>
     match argmaxActive p w with
     | none => (x, p, w, true)
     | some (im, wmax) =>
@@ -427,7 +430,7 @@ def nnlsOuter (tol : α) (G : List (List α)) (c : List α) :
         let r := nnlsInner G c (c.length + 1) x p1 s1
         let x3 := scatter r.1 (whereTrue r.2.1) r.2.2.1
         let w3 := vsub c (matVec G x3)
-        let o := nnlsOuter tol G c fuel x3 r.2.1 w3
+        let o := nnlsOuter tolNext G c fuel (tolNext x3) x3 r.2.1 w3
         (o.1, o.2.1, o.2.2.1, o.2.2.2 && r.2.2.2)
       else (x, p, w, true)
 
@@ -435,14 +438,30 @@ def nnlsOuter (tol : α) (G : List (List α)) (c : List α) :
 def maxAbs (l : List α) : α :=
   l.foldl (fun acc a => let b := if a < 0 then 0 - a else a; if acc < b then b else acc) 0
 
+/-- `np.abs(ATA)` -/
+def absMat (G : List (List α)) : List (List α) :=
+  G.map (fun r => r.map (fun a => if a < 0 then 0 - a else a))
+
+/-- `np.max(np.abs(ATA) @ x)`: the size of the products the gradient `Aᵀy − ATA·x` is a
+    difference of (`x ≥ 0`, so every entry of the product is non-negative) -/
+def prodLevel (G : List (List α)) (x : List α) : α := maxAbs (matVec (absMat G) x)
+
+/-- the threshold as re-set at the end of an outer iteration (generated leaf `nnlsTolIter`):
+    `100 · eps · max(max|c|, max(|ATA|·x))` -/
+def nnlsTolAt (eps : α) (G : List (List α)) (c : List α) (x : List α) : α :=
+  Rsa.Gen.C08.nnlsTolIter eps (maxAbs c) (prodLevel G x)
+
 /-- `_nn_least_squares` from the precomputed `ATA = G`, `Aᵀ V⁻¹ y = c` (`eps` = machine
     epsilon): the gradient of a coefficient fixed at zero counts as positive above
-    `tol = 100 · eps · max|c|`; at most `3k` outer iterations (as `scipy.optimize.nnls`) — both
-    expressions are generated leaves.  Returns `(x, w, exited)`. -/
+    `tol = 100 · eps · max|c|` before the first iteration and above
+    `100 · eps · max(max|c|, max(|ATA|·x))` afterwards (round 5: a gradient below the rounding
+    level of the products it is a difference of is zero — a regressor that depends linearly on
+    the fitted ones never enters); at most `3k` outer iterations (as `scipy.optimize.nnls`) —
+    all three expressions are generated leaves.  Returns `(x, w, exited)`. -/
 def nnls (eps : α) (G : List (List α)) (c : List α) : List α × List α × Bool :=
   let k := c.length
-  let r := nnlsOuter (Rsa.Gen.C08.nnlsTol eps (maxAbs c)) G c (Rsa.Gen.C08.nnlsIterBound k)
-    (List.replicate k 0) (List.replicate k false) c
+  let r := nnlsOuter (nnlsTolAt eps G c) G c (Rsa.Gen.C08.nnlsIterBound k)
+    (Rsa.Gen.C08.nnlsTol eps (maxAbs c)) (List.replicate k 0) (List.replicate k false) c
   (r.1, r.2.2.1, r.2.2.2)
 
 /-- the Karush–Kuhn–Tucker predicate of `min ‖y − Aᵀx‖² s.t. x ≥ 0`, with slack `tol`:
